@@ -450,7 +450,9 @@ fn pass_x1(text: String) -> Result<(String, usize), Fail> {
 
 // ---- X8 closure wildcard parameters: `|_|` -> `|_vx0|` (Verus accepts only variable binders)
 struct WildFinder {
+    src: String,
     edits: Vec<Edit>,
+    destructured: usize,
 }
 impl<'ast> Visit<'ast> for WildFinder {
     fn visit_expr_closure(&mut self, c: &'ast syn::ExprClosure) {
@@ -470,6 +472,24 @@ impl<'ast> Visit<'ast> for WildFinder {
                     let (s, e) = rng(t.span());
                     let n = self.edits.len();
                     self.edits.push((s, e, format!("_vx{}: ()", n)));
+                    continue;
+                }
+            }
+            // a destructuring parameter `|(a, b)| body` -> `|vx_cN| { let (a, b) = vx_cN; body }` (irrefutable pattern,
+            // same meaning; Verus accepts only variable binders as closure parameters)
+            if matches!(inner, syn::Pat::Tuple(_) | syn::Pat::TupleStruct(_) | syn::Pat::Struct(_) | syn::Pat::Reference(_)) {
+                let (s, e) = rng(inner.span());
+                let n = self.destructured;
+                self.destructured += 1;
+                let pat_txt = self.src[s..e].to_string();
+                self.edits.push((s, e, format!("vx_c{}", n)));
+                let (bs, be) = rng(c.body.span());
+                if let syn::Expr::Block(b) = &*c.body {
+                    let (_, oe) = rng(b.block.brace_token.span.open());
+                    self.edits.push((oe, oe, format!(" let {} = vx_c{};", pat_txt, n)));
+                } else {
+                    self.edits.push((bs, bs, format!("{{ let {} = vx_c{}; ", pat_txt, n)));
+                    self.edits.push((be, be, " }".to_string()));
                 }
             }
         }
@@ -478,7 +498,7 @@ impl<'ast> Visit<'ast> for WildFinder {
 }
 fn pass_x8(text: String) -> Result<(String, usize), Fail> {
     let f = parse_fn(&text)?;
-    let mut wf = WildFinder { edits: vec![] };
+    let mut wf = WildFinder { src: text.clone(), edits: vec![], destructured: 0 };
     wf.visit_impl_item_fn(&f);
     let n = wf.edits.len();
     Ok((apply_edits(&text, wf.edits), n))
@@ -771,8 +791,43 @@ fn pass_x3(text: String, ex: &Extract, probes: bool, probe_ctr: &mut usize) -> R
             *probe_ctr += 1;
             edits.push((e, e, format!("\n proof {{ if vx_probe({}) {{ assert(false); }} }} /*@P[{}|after-stmt-{}]*/\n", *probe_ctr, *probe_ctr, k + 1)));
         }
+        // audit mode (VX_DEEP_PROBES=1): additionally after every statement of every NESTED block that can fall through
+        // (branches made unreachable by a precondition are reported too, so these are notes for a human, not verdicts)
+        if std::env::var("VX_DEEP_PROBES").map(|v| v == "1").unwrap_or(false) {
+            let mut dp = DeepProbeFinder { pos: vec![], depth: 0 };
+            dp.visit_block(&f.block);
+            for e in dp.pos {
+                *probe_ctr += 1;
+                edits.push((e, e, format!("\n proof {{ if vx_probe({}) {{ assert(false); }} }} /*@P[{}|deep]*/\n", *probe_ctr, *probe_ctr)));
+            }
+        }
     }
     Ok(apply_edits(&text, edits))
+}
+struct DeepProbeFinder {
+    pos: Vec<usize>,
+    depth: usize,
+}
+impl<'ast> Visit<'ast> for DeepProbeFinder {
+    fn visit_expr_closure(&mut self, _c: &'ast syn::ExprClosure) {}
+    fn visit_block(&mut self, b: &'ast syn::Block) {
+        if self.depth > 0 {
+            for st in b.stmts.iter() {
+                let falls = match st {
+                    syn::Stmt::Expr(e, semi) => semi.is_some() && !matches!(e, syn::Expr::Return(_) | syn::Expr::Break(_) | syn::Expr::Continue(_)),
+                    syn::Stmt::Local(_) => true,
+                    _ => false,
+                };
+                if falls {
+                    let (_, e) = rng(st.span());
+                    self.pos.push(e);
+                }
+            }
+        }
+        self.depth += 1;
+        syn::visit::visit_block(self, b);
+        self.depth -= 1;
+    }
 }
 
 // ---- rename
